@@ -82,6 +82,7 @@ func vobPayload(s string) *commonpb.Payload {
 // vobFill: when non-empty, every other namespace-name field (descriptor rule) of the messages along the path is set to it,
 // so that an access-control verdict is decided by the leaf under test and not by empty sibling names.
 var vobFill string
+var vobFilled int // how many sibling fields the last build filled
 
 // vobTail: every events list on the path gets a skippable event before and after the event under test (a batch must not be
 // judged by its last event). vobDirty: every event blob on the path also holds a failure message with invalid UTF-8, so the
@@ -154,6 +155,7 @@ func vobBuild(m protoreflect.Message, path []string, leafKind, value string) err
 			f := md.Fields().Get(i)
 			if ns, _, _ := vscClassify(md, f); ns && string(f.Name()) != path[0] {
 				m.Set(f, protoreflect.ValueOfString(vobFill))
+				vobFilled++
 			}
 		}
 	}
@@ -417,7 +419,7 @@ func vobTranslate(ic *TranslationInterceptor, r vobRoot, msg proto.Message) (pro
 }
 
 func vobRunACL(tr *TranslationInterceptor, acl *AccessControlInterceptor, ob vobOblig) map[string]interface{} {
-	rec := map[string]interface{}{"ev": "Acl", "variant": ob.Variant, "id": ob.ID, "leaf": ob.Leaf, "service": ob.Root.Service, "method": ob.Root.Method, "type": ob.Root.Type,
+	rec := map[string]interface{}{"ev": "Acl", "siblings": 0, "variant": ob.Variant, "id": ob.ID, "leaf": ob.Leaf, "service": ob.Root.Service, "method": ob.Root.Method, "type": ob.Root.Type,
 		"path": ob.Path, "value": ob.Value, "bypass": ob.Bypass, "skipped": ob.Skipped, "reached": ob.Reached,
 		"denied": false, "forwarded": false, "seen": "", "err": "", "built": false}
 	defer func() {
@@ -430,9 +432,15 @@ func vobRunACL(tr *TranslationInterceptor, acl *AccessControlInterceptor, ob vob
 		rec["err"] = "build: " + err.Error()
 		return rec
 	}
-	vobFill = "ns-allowed"
+	// the other namespace fields of the messages on the path hold an allowed name - or, variant "fillbad", a forbidden one:
+	// then the request must be refused whatever the leaf under test holds
+	vobFill, vobFilled = "ns-allowed", 0
+	if ob.Variant == "fillbad" {
+		vobFill = "ns-forbidden"
+	}
 	err = vobBuild(m, ob.Path, ob.Leaf, ob.Value)
 	vobFill = ""
+	rec["siblings"] = vobFilled
 	if err != nil {
 		rec["err"] = "build: " + err.Error()
 		return rec
